@@ -122,6 +122,7 @@ func literalPins(s *hx.Schema) (syms, keys map[string]bool) {
 		args(d.Args)
 	}
 	uses(s.RootDirs)
+	uses(s.ExtRootDirs)
 	return
 }
 
@@ -220,9 +221,10 @@ func arrange(t *rapid.T, s *hx.Schema, o hx.SDLOpts, label string, allowExtend b
 			mk("extend "+ext.RootsSDL(), "", "schema", n2)
 		}
 	}
-	if s.Roots == nil && len(s.ExtRoots) > 0 {
+	if s.Roots == nil && (len(s.ExtRoots) > 0 || len(s.ExtRootDirs) > 0) {
 		// the implicit schema is extended: the block may sit anywhere, in any load that has the types it names
 		n := needSet{}
+		n.uses(s.ExtRootDirs)
 		for _, tn := range s.ExtRoots {
 			n[tn] = true
 		}
